@@ -272,6 +272,7 @@ type vmJob struct {
 	Files []string `json:"files"` // run these in this order, each on its own fresh VM …
 	Reps  int      `json:"reps"`  // … and repeat the whole sequence this many times
 	Dir   string   `json:"dir"`   // working directory for the job
+	MaxMS int64    `json:"max_ms"` // stop repeating after this much time (0 = no limit); at least 3 repetitions are made
 }
 
 // vmAnswer: per position in Files, the distinct outcomes seen over the repetitions with counts.
@@ -280,6 +281,7 @@ type vmAnswer struct {
 	Distinct [][]Outcome `json:"distinct"`
 	Counts   [][]int     `json:"counts"`
 	MilliS   int64       `json:"ms"`
+	Done     int         `json:"done"` // repetitions completed (fewer than asked when the job's time budget ran out)
 }
 
 func init() { vh.RegisterChild("c20vm", vmChild) }
@@ -308,6 +310,10 @@ func vmChild(args []string) int {
 				os.Chdir(j.Dir)
 			}
 			for r := 0; r < j.Reps; r++ {
+				if j.MaxMS > 0 && r >= 3 && time.Since(t0).Milliseconds() > j.MaxMS {
+					break
+				}
+				ans.Done++
 				for i, f := range j.Files {
 					o := runVM(f)
 					found := false
